@@ -424,10 +424,15 @@ class Behavior(_IModel):
         scale = self.__yield.scale if self.__yield is not None else 1.0
         floor = 10.0 * self._tol * float(np.max(self.C[..., ZZ, ZZ]))
         tol = max(self._planeStress_tol * max(scale, 1.0), floor)
-        for _ in range(self._maxIter):
+        for it in range(self._maxIter):
             sig6_e_pg, C6_e_pg, _, _ = self.__Integrate_3d(eps6_e_pg, zOld_e_pg, dt)
             r_e_pg = sig6_e_pg[..., ZZ]
-            if np.max(np.abs(r_e_pg)) < tol:
+            # eps_zz = 0 is only the starting guess. The tolerance is an absolute stress, so a
+            # residual below it THERE says that the strain is small, not that sig_zz vanishes on
+            # the scale of the stress: accepting it would return the plane-strain stress for
+            # small strains. The first correction is always made (it is exact while the response
+            # is linear); the test applies to the corrected iterates.
+            if it > 0 and np.max(np.abs(r_e_pg)) < tol:
                 break
             eps_zz = eps6_e_pg[..., ZZ] - r_e_pg / C6_e_pg[..., ZZ, ZZ]
             eps6_e_pg[..., ZZ] = eps_zz
